@@ -45,6 +45,19 @@ def load_c10():
     return m
 
 
+OPTIME = {}
+
+
+def warm_first(ops):
+    """the first operation of each keyword (it fills that reader's cache) in front, the rest behind"""
+    first, rest, seen = [], [], set()
+    for o in ops:
+        k = o.split()[0]
+        (rest if k in seen else first).append(o)
+        seen.add(k)
+    return first + rest
+
+
 def limit_child():
     resource.setrlimit(resource.RLIMIT_FSIZE, (64 << 20, 64 << 20))
     resource.setrlimit(resource.RLIMIT_CORE, (0, 0))
@@ -79,7 +92,12 @@ def operations(img_path, base_path, paths, wd, tier):
            ("sqfsdiff a b", [diff, "-a", base_path, "-b", img_path]), ("sqfsdiff b a", [diff, "-a", img_path, "-b", base_path])]
     if "reader_hist" in T and os.path.exists(base_path + ".ops"):
         # libsquashfs reader API: every sequence of <= 2 operations (derived from the valid base image) on fresh readers of the variant
-        ops.append(("libsquashfs-api histories<=2", [T["reader_hist"], img_path, base_path + ".ops", "enum", "2", "0", "99"]))
+        if tier == "thorough":
+            ops.append(("libsquashfs-api histories<=2", [T["reader_hist"], img_path, base_path + ".ops", "enum", "2", "0", "99"]))
+        else:
+            # quick: every single operation, and every pair whose first operation is one of the first 10 of the file (one per keyword: inode, readdir, path, read, block, frag, stream, xattr, id, mseek)
+            ops.append(("libsquashfs-api histories=1", [T["reader_hist"], img_path, base_path + ".ops", "enum", "1", "0", "99"]))
+            ops.append(("libsquashfs-api histories<=2 (10 first ops)", [T["reader_hist"], img_path, base_path + ".ops2", "enum", "2", "0", "10"]))
     for p in paths[:6]:
         ops.append(("rdsquashfs -s", [rd, "-s", p, img_path]))
         ops.append(("rdsquashfs -x", [rd, "-x", p, img_path]))
@@ -100,7 +118,9 @@ def evaluate(a):
         base_path = BASE[bname][3]
         found = []
         for opname, argv in operations(ip, base_path, BASE[bname][2], wd, tier):
+            t_op = time.time()
             r = run_reader(argv, wd, 10)
+            OPTIME[opname.split(" /")[0]] = OPTIME.get(opname.split(" /")[0], 0.0) + time.time() - t_op
             if r.timeout:
                 # the API pass runs ~1000 histories in one process, each on fresh readers: a slow table load multiplies
                 limit = 600 if opname.startswith("libsquashfs-api") else 60
@@ -110,7 +130,9 @@ def evaluate(a):
                     continue
             if r.crashed:
                 found.append(("C05|%s|%s" % (r.crash_fingerprint(), opname.split()[0]), opname, r.err.decode("latin1")[-3000:], argv))
-        return bname, kind, desc, found, (data if found else None)
+        ot = dict(OPTIME)
+        OPTIME.clear()
+        return bname, kind, desc, found, (data if found else None), ot
     finally:
         shutil.rmtree(wd, ignore_errors=True)
 
@@ -128,7 +150,7 @@ def main():
             case = json.load(open(os.path.join(cr.replay, "case.json")))
             argv = [T[os.path.basename(case["argv"][0])]] + [a if not a.endswith("img.sqfs") else ip for a in case["argv"][1:]]
             if os.path.exists(os.path.join(cr.replay, "ops.txt")):
-                argv = [a if not a.endswith(".ops") else os.path.join(cr.replay, "ops.txt") for a in argv]
+                argv = [a if ".sqfs.ops" not in a else os.path.join(cr.replay, "ops.txt") for a in argv]
             argv = [a if "/base_" not in a else ip for a in argv]
             r = run_reader(argv, sd, 150)
             print(argv, "rc", r.rc, "timeout", r.timeout)
@@ -148,6 +170,7 @@ def main():
             BASE[name] = (img, fields, paths, bp)
             ops_, mops_, _ = c10.derive_ops(img)
             open(bp + ".ops", "w").write("\n".join(ops_ + mops_[:6]) + "\n")
+            open(bp + ".ops2", "w").write("\n".join(warm_first(ops_ + mops_[:6])) + "\n")
             r = run_tool([T["rdsquashfs"], "-d", bp])
             if r.rc != 0:
                 raise RuntimeError("rdsquashfs rejects the benign base image %s: %s" % (name, r.err[-300:]))
@@ -162,6 +185,7 @@ def main():
         BASE["gz-compressed-metadata"] = (gdata, {}, ["/d", "/d/f", "/d/l"], gimg)
         ops_, mops_, _ = c10.derive_ops(gdata)
         open(gimg + ".ops", "w").write("\n".join(ops_ + mops_[:6]) + "\n")
+        open(gimg + ".ops2", "w").write("\n".join(warm_first(ops_ + mops_[:6])) + "\n")
 
         jobs = []
         counts = {}
@@ -220,6 +244,7 @@ def main():
         cr.coverage["planned_variants"] = len(jobs)
         cr.coverage["variants_by_kind"] = counts
         n_eval = 0
+        optime = {}
         nops = 0
         seen = set()
         chunk = 1500
@@ -227,17 +252,20 @@ def main():
             if cr.time_left() < 30:
                 cr.cap("deadline after %d of %d variants (order: fields, pairs, bytes, truncations)" % (off, len(jobs)))
                 break
-            for bname, kind, desc, found, data in pmap(evaluate, jobs[off:off + chunk]):
+            for bname, kind, desc, found, data, ot in pmap(evaluate, jobs[off:off + chunk]):
                 n_eval += 1
+                for k, v in ot.items():
+                    optime[k] = optime.get(k, 0.0) + v
                 seen.add((bname, desc))
                 for fp, opname, what, argv in found:
-                    extra = {"ops.txt": open(BASE[bname][3] + ".ops", "rb").read()} if opname.startswith("libsquashfs-api") else {}
+                    extra = {"ops.txt": open([a for a in argv if ".ops" in a][0], "rb").read()} if opname.startswith("libsquashfs-api") else {}
                     cr.violation(fp, "base image %s, %s, operation `%s`\n%s" % (bname, desc, opname, what),
                                  files={**extra, "image.sqfs": data, "case.json": json.dumps(dict(base=bname, variant=desc, op=opname, argv=[os.path.basename(argv[0])] + argv[1:]))},
                                  replay_sh="python3 /verif/checks/C05.py --replay \"$PWD\"")
         cr.sample({"base": "b1-all-basic-types", "variant": jobs[len(jobs) // 7][2] if jobs else None})
         cr.sample({"base": jobs[-1][0], "variant": jobs[-1][2]} if jobs else {})
         nops_per = len(operations("x", "y", ["/a"] * 6, "w", cr.tier))
+        cr.coverage["cpu_seconds_by_operation"] = {k: round(v, 1) for k, v in sorted(optime.items(), key=lambda kv: -kv[1])}
         cr.coverage.update(evaluations=n_eval, distinct_nontrivial=len(seen), reader_operations_per_variant=nops_per,
                            base_images=list(BASE),
                            rule="Base images (minimal; every basic inode type; every extended type + xattrs + export table; fragments + sparse + 300-entry directory; a gzip image with "
